@@ -404,9 +404,11 @@ def pipeline_case(item, acc):
     import numpy as np
     import vermouth
     from vermouth.processors import RepairGraph, DoMapping, DoAverageBead
-    resname, present, partial_first = item
+    resname, present, partial_first = item[:3]
+    # exotic: the CA atom of the complete glycine carries an element AttachMass has no mass for (documented: 30 amu then)
+    exotic = bool(item[3]) if len(item) > 3 else False
     case = {'layer': 'e2e-pipeline', 'resname': resname, 'present': list(present) if not isinstance(present, str) else present,
-            'partial_first': partial_first}
+            'partial_first': partial_first, 'exotic': exotic}
     ffs, maps = real_world()
     ff = ffs['charmm']
     system = vermouth.System(force_field=ff)
@@ -428,6 +430,8 @@ def pipeline_case(item, acc):
         for j, atomname in enumerate(names):
             pos = (3 * ridx + (j * 7) % 5, (j * 3) % 7 - ridx, (j * 5) % 11)
             element = block.nodes[atomname].get('element', atomname[0]) if atomname in block.nodes else atomname[0]
+            if exotic and name == 'GLY' and keep == 'all' and atomname == 'CA':
+                element = 'Se'
             mol.add_node(key, atomname=atomname, resname=name, resid=ridx + 1, chain='A', element=element,
                          position=np.array(pos, dtype=float) / 10.0)
             table[key] = tuple(Fraction(p, 10) for p in pos)
@@ -466,7 +470,7 @@ def pipeline_case(item, acc):
             for atom_key, atom in bead['graph'].nodes(data=True):
                 if atom_key in table:
                     weight = Fraction(bead.get('mapping_weights', {}).get(atom_key, 1)).limit_denominator(10 ** 6) * \
-                        Fraction(atom.get('mass', 1)).limit_denominator(10 ** 6)
+                        Fraction(MASS.get(atom.get('element'), 30))      # the documented masses, not the attribute the program attached
                     pairs.append((weight, table[atom_key]))
             want = wmean(pairs) if pairs else None
             got = bead.get('position')
@@ -494,6 +498,7 @@ def pipeline_items():
         for present in presents:
             for partial_first in (True, False):
                 yield resname, present, partial_first
+                yield resname, present, partial_first, True
 
 
 # ----------------------------------------------------------------------------- through bin/martinize2
@@ -696,7 +701,7 @@ def replay(case):
         cli_case((case['input'], case['options'], tuple(case['motion'])), acc)
     elif case['layer'] == 'e2e-pipeline':
         pipeline_case((case['resname'], tuple(case['present']) if isinstance(case['present'], list) else case['present'],
-                       case['partial_first']), acc)
+                       case['partial_first'], case.get('exotic', False)), acc)
     elif case['layer'] == 'e2e-file':
         file_case([v if isinstance(v, str) else tuple(v) for v in case['sequence']], acc)
     else:
